@@ -6,6 +6,13 @@
    select reports a socket readable when data is available or the peer has closed. */
 #include <stddef.h>
 #include "vp.h"
+#ifdef VP_NATIVE
+/* native replay: the same model interposes on the libc entry points; descriptors that are not model sockets go to the kernel */
+long syscall(long, ...);
+#define PASS(nr, ...) return syscall(nr, __VA_ARGS__)
+#else
+#define PASS(nr, ...) return -1
+#endif
 #define NS 3
 #define CAP 2048
 #define BIGCAP 70400
@@ -24,11 +31,12 @@ void vp_sock_fragment(int fd, int on) { S(fd)->fragment = on; }
 long read(int fd, void* buf, size_t size)
 {
 	struct vsock* s = S(fd);
-	if (!s || !s->open) return -1;
+	if (!s) { PASS(0, fd, buf, size); }
+	if (!s->open) return -1;
 	int avail = s->in_n - s->in_pos;
 	if (avail <= 0 || size == 0) return 0;
 	int n = (int)size < avail ? (int)size : avail;
-	if (s->fragment && n > 1) n = vp_concretize(vp_range(1, n));
+	if (s->fragment > 0 && n > 1) { n = vp_concretize(vp_range(1, n)); s->fragment--; }    /* 'fragment' = number of reads that may return short */
 	unsigned char* o = (unsigned char*)buf;
 	for (int i = 0; i < n; i++) o[i] = s->in[s->in_pos++];
 	return n;
@@ -36,32 +44,32 @@ long read(int fd, void* buf, size_t size)
 long recv(int fd, void* buf, size_t size, int flags) { (void)flags; return read(fd, buf, size); }
 long send(int fd, const void* buf, size_t size, int flags)
 {
-	(void)flags;
 	struct vsock* s = S(fd);
-	if (!s || !s->open) return -1;
+	if (!s) { PASS(44, fd, buf, size, flags, 0, 0); }
+	if (!s->open) return -1;
 	const unsigned char* d = (const unsigned char*)buf;
 	size_t n = 0;
 	while (n < size && s->out_n < s->out_cap) s->out[s->out_n++] = d[n++];
 	return (long)size;
 }
-long write(int fd, const void* buf, size_t size) { return send(fd, buf, size, 0); }
-int close(int fd) { struct vsock* s = S(fd); if (!s) return -1; s->open = 0; return 0; }
+long write(int fd, const void* buf, size_t size) { if (!S(fd)) { PASS(1, fd, buf, size); } return send(fd, buf, size, 0); }
+int close(int fd) { struct vsock* s = S(fd); if (!s) { PASS(3, fd); } s->open = 0; return 0; }
 int shutdown(int fd, int how) { (void)fd; (void)how; return 0; }
 int ioctl(int fd, unsigned long req, ...)
 {
 	__builtin_va_list ap; __builtin_va_start(ap, req); long* p = __builtin_va_arg(ap, long*); __builtin_va_end(ap);
 	struct vsock* s = S(fd);
-	if (!s || !s->open) return -1;
+	if (!s) { PASS(16, fd, req, p); }
+	if (!s->open) return -1;
 	*p = s->in_n - s->in_pos;
 	return 0;
 }
 /* fd_set = array of unsigned long bits */
 int select(int nfds, void* rset, void* wset, void* eset, void* timeout)
 {
-	(void)wset; (void)eset; (void)timeout; (void)nfds;
 	unsigned long* r = (unsigned long*)rset;
 	int ready = 0;
-	if (!r) return 0;
+	if (!r || nfds <= FD0) { PASS(23, nfds, rset, wset, eset, timeout); }
 	for (int i = 0; i < NS; i++) {
 		int fd = FD0 + i; unsigned long bit = 1UL << (fd % 64); unsigned long* w = &r[fd / 64];
 		if (!(*w & bit)) continue;
